@@ -244,7 +244,7 @@ void buildModel(const sess::History& h, Model& m) {
             bool nodeLimit = !g.infiniteKw && g.nodes > 0;
             g.modelInfinite = !timeLimit && !depthLimit && !nodeLimit;
             g.needsRelease = g.ponder || g.modelInfinite;
-            // root position: play the move list (as the engine does, without legality check)
+            // root position: the legal prefix of the move list (an illegal move and everything after it is ignored)
             g.posKnown = posKnown;
             Position p(pos);
             if (g.posKnown) {
@@ -252,7 +252,7 @@ void buildModel(const sess::History& h, Model& m) {
                 for (const Move& mv : moves) {
                     std::vector<Move> lm;
                     legalMoves(p, lm);
-                    if (!containsMove(lm, mv)) { g.posKnown = false; break; }
+                    if (!containsMove(lm, mv)) break;
                     p.makeMove(mv, ui);
                 }
             }
